@@ -58,6 +58,8 @@ def finalize(tier: str, seed: int, counters: Dict[str, Any], evaluations: int, d
         inconclusive.append(f'{counters["unbindable"]} (macro, n, w) combinations could not be bound to variables')
     if not counters.get('sequence_programs'):
         inconclusive.append('no sequence program ran')
+    if counters.get('applications_checked_with_a_stale_carry', 0) < 1000:
+        inconclusive.append('composition half of the property: fewer than 1000 applications ran with a carry left set by an earlier macro')
     if not counters.get('fast_engine_slices'):
         inconclusive.append('no slice was re-run on the pure-Python fast loop')
     return {
@@ -75,7 +77,9 @@ def finalize(tier: str, seed: int, counters: Dict[str, Any], evaluations: int, d
         'assumptions': ['the spec table (fjverif/stlmon/spec_hex.py) is my transcription of the doc comments',
                         'undocumented aliasing of operands is not generated',
                         'library-internal state (add/sub carry, hex.mul.dst / add_carry_dst, hex.tables.res/ret, table jumpers) is '
-                        'monitored as variables; a macro whose documentation does not name such a state promises nothing while it is dirty',
+                        'monitored as variables. the add/sub carry is legitimately left set by documented macros (scalar hex.add/sub, set_carry, not_carry): '
+                        'a macro that does not name it must still compute its documented function and leave the flag as it was or clean (0). '
+                        'for the other internal registers ("expected to be 0") a macro promises nothing while one of them is dirty',
                         'in sequence programs a violation is recorded and the model re-synchronised, so one discrepant macro does not '
                         'mask the composition checks of the others'],
     }
